@@ -724,6 +724,11 @@ impl ProtocolState {
 
     fn apply_disconnect_completion(&mut self, operation: &ClientOperation) -> GneissResult<()> {
         if let MqttPacket::Disconnect(_) = &*operation.packet {
+            if self.state == ProtocolStateType::Disconnected {
+                // the connection is already gone; failing a still-unsent disconnect must not fail the close itself
+                return Ok(());
+            }
+
             if self.state == ProtocolStateType::PendingDisconnect {
                 self.state = ProtocolStateType::Halted;
             }
